@@ -207,6 +207,8 @@ type Selection struct {
 	// The parsed flag is used to make sure the args for this Selection are only
 	// parsed once.
 	parsed bool
+	// parsedFor is the field whose argument parser produced Args.
+	parsedFor *Field
 
 	// UnparsedArgs are the original json map[string]interface{} arguments.
 	// This field is only available able after PrepareQuery has been called.
